@@ -229,3 +229,45 @@ Theorem C01_calls_in_gooses_emission_order : forall P rk order,
                exists m, eval m (call_expr F args) s = RVal v s) (pick P order) vs.
 Proof. exact goose_order_preserves_meaning. Qed.
 Print Assumptions C01_calls_in_gooses_emission_order.
+
+(* Calls and mutable variables together (Tr/MiniGoS.v: the expressions of the
+   call fragment with var-declared locals in heap cells, assignment,
+   op-assignment, ++/--, := locals, if/else with early returns).  The model of
+   Go threads the store - a callee allocates and updates its own cells - and
+   works on the very heap of the reference semantics.  For every package the
+   translator model accepts, every function, every argument vector, every
+   initial store and every returning run of Go, the emitted value applied to
+   the arguments evaluates to the value Go returns and ends in the store Go
+   ends in, through any depth of calls and recursion. *)
+From GV Require Import Tr.MiniGoS Tr.MiniGoSProofs.
+
+Theorem C01_calls_and_variables_meaning_preserved : forall P vs,
+  trs_prog P = Some vs ->
+  Forall2 (fun fn F => forall n args v s s',
+             length args = length (sf_params fn) ->
+             sgo_body n P (rev (combine (map fst (sf_params fn)) (map Imm args))) s (sf_body fn) = Some (v, s') ->
+             exists m, eval m (call_expr F args) s = RVal v s') P vs.
+Proof. exact sprog_correct. Qed.
+Print Assumptions C01_calls_and_variables_meaning_preserved.
+
+Theorem C01_calls_and_variables_by_name : forall P vs n f args v s',
+  trs_prog P = Some vs -> sgo_call n P f args = Some (v, s') ->
+  exists i fn F, nth_error P i = Some fn /\ sf_name fn = f /\ nth_error vs i = Some F /\
+    exists m, eval m (call_expr F args) state0 = RVal v s'.
+Proof. exact scall_correct. Qed.
+Print Assumptions C01_calls_and_variables_by_name.
+
+(* expressions with calls (store threaded, operands in the order of the emitted
+   term), argument lists (last argument first) and statement lists, against
+   any table of already emitted functions, together with: every cell that
+   exists stays a cell *)
+Theorem C01_calls_and_variables_statement_lists : forall P n, QE P n /\ QA P n /\ QB P n.
+Proof. exact sall_correct. Qed.
+Print Assumptions C01_calls_and_variables_statement_lists.
+
+Theorem C01_calls_and_variables_example :
+  (exists vs, trs_prog sx_prog = Some vs /\ length vs = 2%nat) /\
+  (exists s', sgo_call 200 sx_prog "Use" [LitV (LitInt 4)] = Some (LitV (LitInt 45), s')) /\
+  (exists s', sgo_call 200 sx_prog "Sum" [LitV (LitInt 3); LitV (LitInt 2)] = Some (LitV (LitInt 10), s')).
+Proof. exact sx_prog_accepted_and_returns. Qed.
+Print Assumptions C01_calls_and_variables_example.
